@@ -1,28 +1,28 @@
 CONSTANTS
-  N = 1
-  MinAgree = 1
-  StepThresh = 1
+  N = 3
+  MinAgree = 2
+  StepThresh = 0
   SFwd2 = 9999
   SBwd2 = 9999
   Fwd2 = 9999
   Bwd2 = 9999
   Acc2 = 9999
-  TrackFreq = TRUE
+  TrackFreq = FALSE
   F0 = 0
   F0Neg = FALSE
   MaxSteer = 495
-  SlewMax = 600
+  SlewMax = 200
   MaxSamples = 1
   Ghosts = FALSE
-  Readd = TRUE
-  OffPos = {0, 1}
-  OffNeg = {1}
-  LeapVals = {"none"}
+  Readd = FALSE
+  OffPos = {0}
+  OffNeg = {}
+  LeapVals = {"none", "59", "unknown"}
   Wides = {FALSE}
-  MaxChan = 2
-  Bound = 6
-  UsableVals = {TRUE}
-INIT Init
-NEXT Next
+  MaxChan = 1
+  Bound = 0
+  UsableVals = {TRUE, FALSE}
+INIT GenInit
+NEXT GenNext
 CHECK_DEADLOCK FALSE
 INVARIANTS TypeOK C01_StepsWithinThresholds C02_FrequencyBounds C03_MajorityConsensus C04_LeapMajority C37_OnlyRegisteredUsable
